@@ -341,6 +341,8 @@ def resolveCHP (p : CHPP) (base : AssetProblem) (g : Grid) (prices : Prices) (un
   if base.u.any (· < 0) then throw .assertion
   -- with non-negative `min_cap` the contract has one variable per step; anything else is outside this model
   if base.c.length ≠ g.T ∨ base.l.length ≠ g.T ∨ base.u.length ≠ g.T ∨ base.mapping.length ≠ g.T then throw .notImplemented
+  -- `_add_dispatch_variables`: "Only variables of type 'd' are allowed in op.mapping at this point"
+  if heat ∧ base.mapping.any (fun m => m.kind != VarKind.d) then throw .assertion
   let r : CHPR := { name := p.name, nodes := p.nodes, T := g.T, idx := g.idx, base := base, heat := heat, fuel := fuel,
                     conv := conv, share := share, ramp := ramp, last := last, startCosts := startCosts,
                     runningCosts := runningCosts, R := R, D := D, tar := tar, tao := tao, incOn := incOn,
